@@ -94,6 +94,9 @@ class Engine:
                     continue
             if "op" in m and m["op"] != f.extra.get("op"):
                 continue
+            if "post" in m:   # the exact state the recorded defect leaves behind; anything else is a different violation
+                if any(f.extra.get("post_" + k) not in (v if isinstance(v, list) else [v]) for k, v in m["post"].items()):
+                    continue
             if m.get("excess_all_common"):
                 if not (f.extra.get("loaded_outside", 1) == 0 and f.extra.get("model_agrees", False)):
                     continue
